@@ -168,8 +168,9 @@ func (i *Iterator) SeekGE(ctx context.Context, ts telem.TimeStamp) bool {
 
 // Next moves the iterator forward by span. More specifically, if the current view is
 // [start, end), after Next(span) is called, the view becomes [end, end + span). After
-// the view changes, the internal iterator moves forward and accumulates data until the
-// entire view is contained in the iterator's frame.
+// the view changes, the internal iterator is positioned on the first domain that can
+// hold data of the view and accumulates data until the entire view is contained in the
+// iterator's frame.
 func (i *Iterator) Next(ctx context.Context, span telem.TimeSpan) (ok bool) {
 	if i.closed {
 		i.err = ErrIteratorClosed
@@ -186,12 +187,19 @@ func (i *Iterator) Next(ctx context.Context, span telem.TimeSpan) (ok bool) {
 	}
 
 	if span == AutoSpan {
-		return i.autoNext(ctx)
+		if span, ok = i.autoNextSpan(ctx); !ok {
+			return
+		}
 	}
 
 	i.reset(i.view.End.SpanRange(span).BoundBy(i.bounds))
 
-	if i.view.Span().IsZero() || i.view.End.BeforeEq(i.internal.TimeRange().Start) {
+	// Position the internal iterator from the view rather than relying on where the
+	// previous command left it: a step in the other direction, an exhausted internal
+	// iterator or a previous view without samples would otherwise skip stored data.
+	if i.view.Span().IsZero() ||
+		!i.internal.SeekGE(ctx, i.view.Start) ||
+		i.view.End.BeforeEq(i.internal.TimeRange().Start) {
 		return
 	}
 
@@ -207,68 +215,28 @@ func (i *Iterator) Next(ctx context.Context, span telem.TimeSpan) (ok bool) {
 	return
 }
 
-func (i *Iterator) autoNext(ctx context.Context) bool {
-	i.view.Start = i.view.End
+// autoNextSpan resolves the span of an AutoSpan step forward: the view ends at the
+// timestamp AutoChunkSize samples after its start, as resolved by the index. The data
+// is then sliced by that view like for any other span, so that the frame holds exactly
+// the samples of the view.
+func (i *Iterator) autoNextSpan(ctx context.Context) (telem.TimeSpan, bool) {
 	endApprox, err := i.idx.Stamp(
 		ctx,
-		i.view.Start,
+		i.view.End,
 		i.AutoChunkSize,
 		index.AllowDiscontinuous,
 	)
 	if err != nil {
+		i.reset(i.view.End.SpanRange(0))
 		i.err = err
-		return false
+		return 0, false
 	}
-	if endApprox.Lower.After(i.bounds.End) {
-		return i.Next(ctx, i.view.Start.Span(i.bounds.End))
-	}
-	i.view.End = endApprox.Lower
-	i.reset(i.view.BoundBy(i.bounds))
-
-	nRemaining := i.AutoChunkSize
-	for {
-		if !i.internal.TimeRange().OverlapsWith(i.view) {
-			if !i.internal.Next() {
-				return false
-			}
-			continue
-		}
-		startApprox, dmn, err := i.approximateStart(ctx)
-		if err != nil {
-			i.err = err
-			return false
-		}
-		startSample := startApprox.Upper
-		if !startApprox.Exact() && !startApprox.StartExact {
-			startSample = startApprox.Lower
-		}
-		startOffset, err := i.resolver.byteOffset(ctx, i.internal, startSample)
-		if err != nil {
-			i.err = err
-			return false
-		}
-		endOffset, err := i.resolver.byteOffset(ctx, i.internal, startSample+nRemaining)
-		if err != nil {
-			i.err = err
-			return false
-		}
-		series, err := i.read(ctx, dmn, startOffset, endOffset-startOffset)
-		if err != nil && !errors.Is(err, io.EOF) {
-			i.err = err
-			return false
-		}
-		nRemaining -= series.Len()
-		i.insert(series)
-		if nRemaining <= 0 || !i.internal.Next() {
-			break
-		}
-	}
-
-	return i.partiallySatisfied()
+	return max(i.view.End.Span(endApprox.Lower), 0), true
 }
 
-func (i *Iterator) autoPrev(ctx context.Context) bool {
-	i.view.End = i.view.Start
+// autoPrevSpan resolves the span of an AutoSpan step backward: the view starts right
+// after the timestamp AutoChunkSize samples before its end, as resolved by the index.
+func (i *Iterator) autoPrevSpan(ctx context.Context) (telem.TimeSpan, bool) {
 	startApprox, err := i.idx.Stamp(
 		ctx,
 		i.view.Start,
@@ -276,63 +244,18 @@ func (i *Iterator) autoPrev(ctx context.Context) bool {
 		index.AllowDiscontinuous,
 	)
 	if err != nil {
+		i.reset(i.view.Start.SpanRange(0))
 		i.err = err
-		return false
+		return 0, false
 	}
-	if startApprox.Lower.Before(i.bounds.Start) {
-		return i.Prev(ctx, i.bounds.Start.Span(i.view.End))
-	}
-	i.view.Start = startApprox.Lower + 1
-	i.reset(i.view.BoundBy(i.bounds))
-	nRemaining := i.AutoChunkSize
-	for {
-		if !i.internal.TimeRange().OverlapsWith(i.view) {
-			if !i.internal.Prev() {
-				return false
-			}
-			continue
-		}
-		endApprox, err := i.approximateEnd(ctx)
-		if err != nil {
-			i.err = err
-			return false
-		}
-		endSample := endApprox.Upper
-		if !startApprox.Exact() && !endApprox.StartExact {
-			endSample = endApprox.Lower
-		}
-		endOffset, err := i.resolver.byteOffset(ctx, i.internal, endSample)
-		if err != nil {
-			i.err = err
-			return false
-		}
-		startSample := endSample - nRemaining
-		if startSample < 0 {
-			startSample = 0
-		}
-		startOffset, err := i.resolver.byteOffset(ctx, i.internal, startSample)
-		if err != nil {
-			i.err = err
-			return false
-		}
-		series, err := i.read(ctx, 0, startOffset, endOffset-startOffset)
-		if err != nil && !errors.Is(err, io.EOF) {
-			i.err = err
-			return false
-		}
-		nRemaining -= series.Len()
-		i.insert(series)
-		if nRemaining <= 0 || !i.internal.Prev() {
-			break
-		}
-	}
-	return i.partiallySatisfied()
+	return max((startApprox.Lower + 1).Span(i.view.Start), 0), true
 }
 
 // Prev moves the iterator backward by span. More specifically, if the current view is
 // [start, end), after Next(span) is called, the view becomes [start - span, start).
-// After the view changes, the internal iterator moves backward and accumulates data
-// until the entire view is contained in the iterator's frame.
+// After the view changes, the internal iterator is positioned on the last domain that
+// can hold data of the view and accumulates data until the entire view is contained in
+// the iterator's frame.
 func (i *Iterator) Prev(ctx context.Context, span telem.TimeSpan) (ok bool) {
 	if i.closed {
 		i.err = ErrIteratorClosed
@@ -350,12 +273,16 @@ func (i *Iterator) Prev(ctx context.Context, span telem.TimeSpan) (ok bool) {
 	}
 
 	if span == AutoSpan {
-		return i.autoPrev(ctx)
+		if span, ok = i.autoPrevSpan(ctx); !ok {
+			return
+		}
 	}
 
 	i.reset(i.view.Start.SpanRange(-1 * span).BoundBy(i.bounds))
 
-	if i.view.Span().IsZero() || i.view.Start.AfterEq(i.internal.TimeRange().End) {
+	if i.view.Span().IsZero() ||
+		!i.internal.SeekLE(ctx, i.view.End-1) ||
+		i.view.Start.AfterEq(i.internal.TimeRange().End) {
 		return
 	}
 
